@@ -119,6 +119,7 @@ def main():
             for k, v in old.get("checks", {}).items():
                 meta["checks"].setdefault(k, v)
             meta["history"] = old.get("history", []) + [{"at": old.get("at"), "checks": old.get("checks")}]
+        meta["suite_checked"] = bool(old.get("suite_checked")) or not a.skip_suite
         meta["at"] = time.strftime("%Y-%m-%d %H:%M:%S")
         json.dump(meta, open(mp, "w"), indent=1)
         return 0
